@@ -458,14 +458,14 @@ def selected(item, mt, node):
     return mt["resnames"][node] == item["resname"] and item["start"] <= node + 1 < item["stop"]
 
 
-def oracle_requests(desc, cap):
+def oracle_requests(desc, cap, judge_crossing=False):
     """Build the specification requests for one finished build.  Returns (requests, judges): judges[i]
     turns answer i into None (holds) or (shape, text)."""
     reqs, judges = [], []
     box = cap["box"]
     topology, engine = cap["topology"], cap["nb"]
     crossing = 0
-    judge_crossing = os.environ.get("C07_PBC_DIRECTION") == "1"
+    judge_crossing = judge_crossing or os.environ.get("C07_PBC_DIRECTION") == "1"
     trees = {}
     for mol_idx, mt in mol_instances(desc):
         mol = topology.molecules[mol_idx]
@@ -504,7 +504,8 @@ def oracle_requests(desc, cap):
                     reqs.append(dict(op="spec_dir", opt=rw_option_json(it["normal"], it["angle"]),
                                      step=[rat_str(x) for x in mim]))
 
-                    def judge(ans, it=it, mol_idx=mol_idx, node=node, raw=raw, mim=mim, par=parent[node]):
+                    def judge(ans, it=it, mol_idx=mol_idx, node=node, raw=raw, mim=mim, par=parent[node],
+                              last=it is rw_items[-1]):
                         if ans["res"]:
                             return None
                         # tolerate the float boundary of the angle test
@@ -512,6 +513,8 @@ def oracle_requests(desc, cap):
                         if abs(ang - abs(it["angle"])) < 1e-6:
                             return None
                         shape = "direction-across-pbc" if raw != mim else "direction-violated"
+                        if not last:
+                            shape = "rw-restriction-overwritten"
                         return (shape, "step %d -> %d of molecule %d is %s (minimum image; raw difference %s), "
                                 "angle to normal %s = %.3f deg, restriction %s"
                                 % (par, node, mol_idx, [float(x) for x in mim], [float(x) for x in raw],
@@ -682,7 +685,14 @@ def gen_system(rng, flavour, thorough):
         angle = rng.choice([90.0, 90.0, 60.0, 75.0, 120.0, -100.0, -120.0, -150.0])
         resname = rng.choice(sorted(set(mt["resnames"])))
         start = rng.randint(1, n)
-        items.append(dict(kind="rw", resname=resname, start=start, stop=rng.randint(start + 1, n + 1),
+        stop = rng.randint(start + 1, n + 1)
+        if os.environ.get("C07_MULTI_RW") == "1" and stop <= n:
+            # candidate finding rw-restriction-overwritten: only the last line of a block is kept
+            items.append(dict(kind="rw", resname=resname, start=start, stop=stop,
+                              normal=[float(x) for x in normal], angle=angle))
+            start, stop = stop, n + 1
+            normal = rng.choice([[0, 0, 1], [1, 0, 0], [0, 1, 0]])
+        items.append(dict(kind="rw", resname=resname, start=start, stop=stop,
                           normal=[float(x) for x in normal], angle=angle))
     if flavour in ("dist", "mixed") and n >= 3 and (flavour == "dist" or rng.random() < 0.5):
         a = rng.randint(0, n - 3)
@@ -827,7 +837,7 @@ def run_e2e(ctx, cases, timeout=None):
             if status.startswith("error") and not cap.get("error", "").startswith("Sampling the end-to-end"):
                 ctx.tally(build_error=cap.get("error", "")[:80])
             continue
-        rq, judges, crossing = oracle_requests(desc, cap)
+        rq, judges, crossing = oracle_requests(desc, cap, bool(case.get("judge_crossing")))
         # correspondence inside the build: the tree and the stored restraints of every molecule
         topology = cap["topology"]
         extra = []
